@@ -10,7 +10,7 @@
    - time of a position: piecewise-linear integration of 60000/bpm per beat (Timing/Integrate.v, time_of).
    Definitions only. *)
 From Coq Require Import ZArith QArith Qround Qabs List Bool.
-From RV Require Import Base.PyNum Timing.Snapper Timing.Snap Timing.TimingMap Timing.Integrate Formats.BMSText.
+From RV Require Import Base.PyNum Timing.Snapper Timing.Snap Timing.TimingMap Timing.Integrate Timing.Domain Formats.BMSText.
 Import ListNotations.
 Open Scope Z_scope.
 
@@ -438,4 +438,89 @@ Definition layout_ok (max_keys : Z) (lay : list (text * Z)) : bool :=
   && match layout_rev lay V_TIME_SIG, layout_rev lay V_BPM, layout_rev lay V_EXBPM with
      | Some a, Some b, Some c => text_eqb a CH_TIME_SIG && text_eqb b CH_BPM && text_eqb c CH_EXBPM
      | _, _, _ => false
+     end.
+
+(* ================================================================ the domain of the read theorem (bms_read_denotes) ================================================================ *)
+(* the reader's lane object / query snap for an object of the text: Snap(measure, beat, None) *)
+Definition lobj_of (c : Z) (o : sobj) : lobj := mkLobj c (mkSnap (o_measure o) (s_b (snap_of o)) 0) (o_id o).
+Definition qsnap (o : sobj) : snap := mkSnap (o_measure o) (s_b (snap_of o)) 0.
+(* the lane objects of the text, in the order the text lists them *)
+Definition lane_lobjs (lay : slayout) (sobjs : list sobj) : list lobj :=
+  flat_map (fun o => match lane_of lay (o_chan o) with Some c => [lobj_of c o] | None => [] end) sobjs.
+Definition origin_bcs (bpm0 : Q) : bcs := mkBcs bpm0 BEATS_PER_MEASURE (mkSnap 0 0 BEATS_PER_MEASURE).
+Definition nonneg_snap (b : bcs) : bool := (0 <=? s_m (bs_snap b)) && Qle_bool 0 (s_b (bs_snap b)).
+(* a tempo object at measure 0 position 0, if there is one, is the first tempo object the text lists *)
+Definition origin_tempo_first (tempos : list bcs) : bool :=
+  match tempos with
+  | [] => true
+  | b1 :: rest => at_origin (bs_snap b1) || forallb (fun b => negb (at_origin (bs_snap b))) (b1 :: rest)
+  end.
+
+(* Leibniz equality tests *)
+Definition Q_same (a b : Q) : bool := (Qnum a =? Qnum b) && (Qden a =? Qden b)%positive.
+Definition snap_same (a b : snap) : bool := (s_m a =? s_m b) && Q_same (s_b a) (s_b b) && Q_same (s_met a) (s_met b).
+Definition bcs_same (a b : bcs) : bool := Q_same (bs_bpm a) (bs_bpm b) && Q_same (bs_met a) (bs_met b) && snap_same (bs_snap a) (bs_snap b).
+Definition lobj_same (a b : lobj) : bool := (lo_col a =? lo_col b) && snap_same (lo_snap a) (lo_snap b) && text_eqb (lo_pair a) (lo_pair b).
+Fixpoint list_same {A} (e : A -> A -> bool) (a b : list A) : bool :=
+  match a, b with
+  | [], [] => true
+  | x :: a', y :: b' => e x y && list_same e a' b'
+  | _, _ => false
+  end.
+
+(* the state of BMSMap._read_notes after its line loop *)
+Definition read_state (cfg : layout) (mk : Z) (lines : list text) : option (bms_meta * rstate) :=
+  match classify_lines ([], []) lines with
+  | None => None
+  | Some (hdr, notes_rev) =>
+      match read_file_header hdr with
+      | None => None
+      | Some meta =>
+          match layout_rev cfg V_TIME_SIG, layout_rev cfg V_BPM, layout_rev cfg V_EXBPM with
+          | Some ch_ts, Some ch_bpm, Some ch_ex =>
+              match read_entries cfg mk meta ch_ts ch_bpm ch_ex
+                                 (mkRS [mkBcs (m_bpm meta) 4 (mkSnap 0 0 4)] [] []) (rev notes_rev) with
+              | Some st => Some (meta, st)
+              | None => None
+              end
+          | _, _, _ => None
+          end
+      end
+  end.
+
+(* Domain of bms_read_denotes, decidable and evaluated by the runner on every generated text:
+   (i)   the line loop collected exactly the objects the format assigns to the text (tempo objects and lane objects,
+         in text order)  -- agreement of the two parsers, checked per case, not proved;
+   (ii)  a tempo object at the origin is the first tempo object listed;
+   (iii) every lane pairs (each LN tail has a head);
+   (iv)  the C10 domain: tempo objects pairwise on the 1/96 grid, positions at or after the origin. *)
+Definition read_theorem_domain (tbl : list Q) (cfg : layout) (mk : Z) (lines : list text) : bool :=
+  match read_state cfg mk lines with
+  | None => false
+  | Some (meta, st) =>
+      let sobjs := flat_map objs_of_line lines in
+      match tempo_objs (table_of S_BPM (headers_of lines)) sobjs with
+      | None => false
+      | Some tempos =>
+          let script := script_of (m_bpm meta) tempos in
+          list_same bcs_same (r_bcs st) (rev tempos ++ [origin_bcs (m_bpm meta)])
+          && list_same lobj_same (r_objs st) (rev (lane_lobjs cfg sobjs))
+          && forallb nonneg_snap tempos && origin_tempo_first tempos
+          && match lanes_denote (m_lnobj meta) cfg sobjs (map Z.of_nat (seq 0 (Z.to_nat mk))) with
+             | None => false
+             | Some (hs, ls) =>
+                 domainb tbl script (map (fun co => qsnap (snd co)) hs)
+                 && domainb tbl script (map (fun cl => qsnap (fst (snd cl))) ls)
+                 && domainb tbl script (map (fun cl => qsnap (snd (snd cl))) ls)
+             end
+      end
+  end.
+
+(* the guards of bms_read_denotes as a function of the text: tempo objects pairwise on the grid, and a tempo object at
+   the origin listed first *)
+Definition read_guards (tbl : list Q) (lines : list text) : bool :=
+  tempo_on_grid tbl lines
+  && match tempo_objs (table_of S_BPM (headers_of lines)) (flat_map objs_of_line lines) with
+     | Some tempos => origin_tempo_first tempos
+     | None => true
      end.
